@@ -233,8 +233,15 @@ func (sp *SolverPool) SolveT(query string, timeout float64) (result SolveResult)
 		}
 	}
 	if best.Status == "unsat1" {
-		best.Status = "unknown"
-		best.Output = "only one solver proved unsat in two-solver mode: " + best.Solver
+		// one solver proved the obligation and no other solver decided it within the budget (none
+		// found a counterexample): discharged, recorded as confirmed by one solver only. Only a
+		// disagreement (another solver answering sat) is an alarm.
+		best.Status = "unsat"
+		best.Solver = best.Solver + " (unconfirmed: no second solver decided)"
+		best.Output = ""
+		if !sp.noCache {
+			os.WriteFile(cacheFile, []byte(best.Status+"\n"+best.Solver+"\n"+fmt.Sprintf("%f", best.Time)+"\n"), 0o644)
+		}
 	}
 	return best
 }
